@@ -25,6 +25,11 @@ type Case struct {
 
 var sentinel = date.New(1234, 5, 6)
 
+type (
+	namedS string
+	namedB []byte
+)
+
 func sameYMD(d date.Date, y int64, m, dd int) bool {
 	gy, gm, gd := d.Date()
 	return int64(gy) == y && int(gm) == m && gd == dd
@@ -80,11 +85,18 @@ func judge(c Case, w *vkit.W) {
 
 	got, err := date.DefaultParser(text, rule)
 	check("DefaultParser[string]", got, err, typed(err))
-	got, err = date.DefaultParser([]byte(text), rule)
+	got, err = date.DefaultParser(w.Scratch(text), rule) // a reused caller buffer
 	check("DefaultParser[[]byte]", got, err, typed(err))
+	if v.Shape || len(text) < 4 {
+		// derived input types (constraint.ParserInput is ~string | ~[]byte)
+		got, err = date.DefaultParser(namedS(text), rule)
+		check("DefaultParser[named string]", got, err, err != nil)
+		got, err = date.DefaultParser(namedB(w.Scratch(text)), rule)
+		check("DefaultParser[named []byte]", got, err, err != nil)
+	}
 	if c.Rule == 0 {
 		d := sentinel
-		err := d.UnmarshalText([]byte(text))
+		err := d.UnmarshalText(w.Scratch(text))
 		if err != nil && !d.Equal(sentinel) {
 			w.Fail(c, "receiver-changed-on-error", fmt.Sprintf("UnmarshalText(%q): error %v but receiver became %v", text, err, d))
 		}
@@ -121,6 +133,7 @@ var yearsQuick = []string{
 	"2019", "2020", "2021", "2022", "2023", "2024", "2038", "2100", "2400", "4000", "9996", "9999",
 	"10000", "12345", "20000", "99999", "100000", "123456", "400000", "999999", "1000000", "1234567", "2000000", "9999999",
 	"10000000", "12345678", "20240000", "99999999", "100000000", "123456789", "400000000", "999999996", "999999999",
+	"1234567890", "0000002020", "2147483647", "9999999999", "00000000002020", "12345678901", "0000000000", // 10+ year digits: never valid
 	"00000", "000000000", "00400", "002000", "0001900", "000002024", "2147483647"[0:9], "214748364"[0:9], "0099", "0999", "3000", "5555",
 }
 
@@ -280,6 +293,27 @@ func TestCheck(t *testing.T) {
 		})
 	}
 	r.Sampled()
+
+	// Phase H: the limit is a setting: the same text is parsed again after MaxInputLength was lowered, raised and disabled.
+	r.Phase("H: histories - valid texts re-parsed while MaxInputLength changes between the calls", func() {
+		r.Serial(func(w *vkit.W) {
+			for round := 0; round < 2; round++ {
+				for i := int64(0); i < int64(r.Pick(300, 3000)); i++ {
+					g := r.Rng("hist", i)
+					text := randomValidText(g, i)
+					n := len(text)
+					for _, lim := range []int{0, n, n - 1, 15, 8, n + 1, n - 1, 0, 10} {
+						restore := setLimit(lim)
+						for _, rule := range rules {
+							judge(Case{Text: vkit.B(text), Rule: rule, Limit: lim}, w)
+							w.EvalRandom(vkit.Hash64(text, strconv.Itoa(rule), strconv.Itoa(lim), "h"), true)
+						}
+						restore()
+					}
+				}
+			}
+		})
+	})
 
 	// Phase D: rapid - random valid and near-valid texts under random configuration (shrinks to a minimal text).
 	r.Phase("D: rapid texts", func() {
